@@ -35,7 +35,7 @@ fn unknown_table() -> Stmt {
     Stmt::Failing { sql: "INSERT INTO nosuch VALUES (1, 1)".into(), class: ErrClass::Bind }
 }
 
-fn mk_search(property: &str, label: &str, cfg: Cfg, prefix: Vec<Op>, alphabet: Vec<Op>, depth: usize, budget: usize, f: impl Fn(&mut SeqParams)) -> Search {
+pub fn mk_search(property: &str, label: &str, cfg: Cfg, prefix: Vec<Op>, alphabet: Vec<Op>, depth: usize, budget: usize, f: impl Fn(&mut SeqParams)) -> Search {
     let findings = Findings::load();
     let mut p = SeqParams {
         property: property.into(),
@@ -49,6 +49,7 @@ fn mk_search(property: &str, label: &str, cfg: Cfg, prefix: Vec<Op>, alphabet: V
         reopen_cfg: None,
         oom_tolerant: false,
         vacuum_with_sessions: false,
+        census_end: false,
     };
     f(&mut p);
     Search {
@@ -484,6 +485,30 @@ pub fn c15(tier: &str) -> i32 {
             Op::Reopen,
         ];
         searches.push(mk_search("C15", "create/drop/re-create t2 (two shapes), SET/DROP NOT NULL, CREATE UNIQUE INDEX, DML on both tables, DDL inside committed/rolled-back transactions, reopen", Cfg::default(), prefix, alpha, if quick { 5 } else { 7 }, if quick { 200_000 } else { 8_000_000 }, |p| {
+            p.reopen_end = true;
+        }));
+    }
+    {
+        // object NAMES: tables whose names differ only in letter case, a name that is a prefix of another, a name with
+        // digits and underscores: each name is its own object, created/dropped/re-created independently
+        let prefix = vec![Op::Auto(Stmt::CreateTable(TableDef::simple("orders", &[("k", ColTy::Int), ("v", ColTy::Int)]))), Op::Auto(ins("orders", &[(1, 10)]))];
+        let mut alpha = vec![];
+        for name in ["Orders", "ORDERS", "orde", "orders_2"] {
+            alpha.push(Op::Auto(Stmt::CreateTable(TableDef::simple(name, &[("k", ColTy::Int), ("v", ColTy::Int)]))));
+            alpha.push(Op::Auto(ins(name, &[(7, 70)])));
+            alpha.push(Op::Auto(Stmt::DropTable(name.into())));
+        }
+        alpha.push(Op::Auto(sel("orders")));
+        alpha.push(Op::Auto(sel("Orders")));
+        alpha.push(Op::Auto(ins("orders", &[(2, 20)])));
+        alpha.push(Op::Auto(Stmt::DropTable("orders".into())));
+        alpha.push(Op::Begin(1));
+        alpha.push(Op::In(1, Stmt::CreateTable(TableDef::simple("Orders", &[("k", ColTy::Int), ("v", ColTy::Int)]))));
+        alpha.push(Op::In(1, ins("Orders", &[(8, 80)])));
+        alpha.push(Op::Commit(1));
+        alpha.push(Op::Rollback(1));
+        alpha.push(Op::Reopen);
+        searches.push(mk_search("C15", "names: orders / Orders / ORDERS / orde / orders_2 are five objects; create, fill, drop and re-create each, in autocommit and inside committed/rolled-back transactions, reopen", Cfg::default(), prefix, alpha, if quick { 3 } else { 5 }, if quick { 100_000 } else { 4_000_000 }, |p| {
             p.reopen_end = true;
         }));
     }
